@@ -618,6 +618,10 @@ def compare(ctx, cases, impl, model_lines):
                         orc.append((i, "%s: Len error although required_len %s <= len %s" % (prof, f[1], f[2]), None))
                 if int(kv.get("pulled", "0")) > k:
                     orc.append((i, "%s: pulled %s bytes from a reader that ends at %d" % (prof, kv.get("pulled"), k), None))
+                # the source was asked for bytes it does not have (its fault was hit): the read must
+                # return that I/O error - not success and not some other verdict built on missing bytes
+                if ex.get("hit") == "1" and not base.startswith("io:"):
+                    orc.append((i, "%s: the reader failed at byte %d but the result is '%s', not the I/O error" % (prof, k, base[:120]), None))
                 if len(a) > 6:
                     if int(kv.get("pulled", "0")) > int(a[6]):
                         orc.append((i, "%s: LimitedReader(max_len %s) pulled %s bytes" % (prof, a[6], kv.get("pulled")), None))
